@@ -19,6 +19,7 @@ import (
 // and commands (C04, C05 via the shared types, C06).
 var appendScopes = map[string][]string{
 	"C04": {"network/smb/smb_v10/message/commands", "network/smb/smb_v10/message/commands/andx"},
+	"C05": {"network/smb/smb_v10/types", "network/smb/smb_v10/dialects", "network/smb/smb_v10/message/commands/andx"},
 	"C06": {"network/smb/smb_v10/types", "network/smb/smb_v10/message/parameters", "network/smb/smb_v10/message/data", "network/smb/smb_v10/message/commands/andx", "network/smb/smb_v10/spnego/ntlm/version", "windows/ms_dtyp/common/data_structures"},
 }
 
